@@ -26,7 +26,7 @@ TInit ==
     /\ cf = [files |-> F0, proto |-> 4, upload |-> TRUE, confirm |-> TRUE]
     /\ chan = [r \in Roles |-> <<>>] /\ dead = [r \in Roles |-> FALSE]
     /\ pc = [r \in Roles |-> "done"] /\ fi = [r \in Roles |-> 0]
-    /\ rem = 0 /\ outst = <<>> /\ sdig = Empty /\ got = Empty /\ ackq = <<>> /\ fin = FALSE /\ rsize = 0
+    /\ rem = 0 /\ outst = <<>> /\ sdig = Empty /\ got = Empty /\ ackq = <<>> /\ fin = FALSE /\ rsize = 0 /\ nann = 0
     /\ rdig = Empty /\ fileOK = [r \in Roles |-> {}] /\ stopped = [r \in Roles |-> "no"]
     /\ dst = [f \in 1..1 |-> Empty] /\ made = {} /\ result = [r \in Roles |-> "run"]
     /\ faults = 0 /\ told = [r \in Roles |-> FALSE]
@@ -38,7 +38,7 @@ TReset ==
     /\ cf' = [files |-> Ev.files, proto |-> Ev.proto, upload |-> Ev.upload, confirm |-> TRUE]
     /\ chan' = [r \in Roles |-> <<>>] /\ dead' = [r \in Roles |-> FALSE]
     /\ pc' = [r \in Roles |-> IF r = "C" THEN "c_act" ELSE "v_act"] /\ fi' = [r \in Roles |-> 0]
-    /\ rem' = 0 /\ outst' = <<>> /\ sdig' = Empty /\ got' = Empty /\ ackq' = <<>> /\ fin' = FALSE /\ rsize' = 0
+    /\ rem' = 0 /\ outst' = <<>> /\ sdig' = Empty /\ got' = Empty /\ ackq' = <<>> /\ fin' = FALSE /\ rsize' = 0 /\ nann' = 0
     /\ rdig' = Empty /\ fileOK' = [r \in Roles |-> {}] /\ stopped' = [r \in Roles |-> "no"]
     /\ dst' = [f \in 1..Len(Ev.files) |-> Empty] /\ made' = {} /\ result' = [r \in Roles |-> "run"]
     /\ faults' = 0 /\ told' = [r \in Roles |-> FALSE]
